@@ -8,6 +8,11 @@ from vlib import runner
 
 
 def main():
+    for stream in (sys.stdout, sys.stderr):  # generated names may hold characters that cannot be encoded (lone surrogates)
+        try:
+            stream.reconfigure(errors="backslashreplace")
+        except Exception:
+            pass
     ap = argparse.ArgumentParser()
     ap.add_argument("prop")
     ap.add_argument("--tier", default=os.environ.get("VERIF_TIER", "quick"), choices=["quick", "thorough"])
